@@ -30,6 +30,7 @@ _STATE = {
     "records": None,
     "writes": None,
     "spawns": None,
+    "trace": None,
     "tmproot": None,
     "runner": None,
     "cli": None,
@@ -151,7 +152,7 @@ def cleanup():
 
 
 class Result:
-    __slots__ = ("exit_code", "stdout", "stderr", "records", "writes", "spawns", "crash", "args")
+    __slots__ = ("exit_code", "stdout", "stderr", "records", "writes", "spawns", "crash", "args", "trace")
 
     def __init__(self):
         self.crash = None
@@ -193,7 +194,7 @@ def invoke(args, cwd=None, env=None):
                 os.environ[k] = v
     if cwd:
         os.chdir(cwd)
-    _STATE["records"], _STATE["writes"], _STATE["spawns"] = [], [], []
+    _STATE["records"], _STATE["writes"], _STATE["spawns"], _STATE["trace"] = [], [], [], []
     _STATE["active"] = True
     try:
         r = _STATE["runner"].invoke(cli.cli, list(args))
@@ -212,11 +213,20 @@ def invoke(args, cwd=None, env=None):
     except Exception:
         res.stderr = ""
     res.records, res.writes, res.spawns = _STATE["records"], _STATE["writes"], _STATE["spawns"]
+    res.trace = _STATE["trace"]
     _STATE["records"] = None
+    _STATE["trace"] = None
     if r.exception is not None and not isinstance(r.exception, SystemExit):
         tb = "".join(traceback.format_exception(*r.exc_info)) if r.exc_info else repr(r.exception)
         res.crash = f"{type(r.exception).__name__}: {r.exception} || " + tb[-700:]
     return res
+
+
+def trace_event(name, **info):
+    """Append an event to the trace of the invocation in progress (used by the contracts)."""
+    tr = _STATE["trace"]
+    if tr is not None:
+        tr.append((name, info))
 
 
 def call(fn, *a, **kw):
